@@ -8,7 +8,12 @@ RULE = {"C02": "designed liquid scenarios (trees + chords with derived loss coef
 
 
 def main():
-    return ref.run_check("C08", RULE["C08"])
+    from . import core, gas
+    V = core.Verdicts("C08")
+    extra = gas.gas_part(V, "C08", core.tier(), core.seed(), [{"pn": 0.3}, {"pn": 25.0, "method": "automatic"}])      # designed gas family (real-gas law, K = 1)
+    rc1 = V.finish()
+    rc2 = ref.run_check("C08", RULE["C08"], extra_cov=extra, prior_violations=len(V.violations))
+    return 1 if (rc1 or rc2) else 0
 
 
 def replay(path):
